@@ -81,9 +81,9 @@ SPEC = dict(
                      R("c17_msg", "asan", 8, 4000, "rand", 300),
                      R("c17_msg", "asan", 4, 0, "huge", 300),
                      # valgrind memcheck lines: only memcheck reports are judged (see vf FLAVORS["vg"])
-                     R("c17_msg", "vg", 4, 0, "exh3", 1800),
-                     R("c17_msg", "vg", 4, 400, "rand", 1800),
-                     R("c17_msg", "vg", 2, 0, "alias", 1800)] + _alias_runs,
+                     R("c17_msg", "vg", 4, 0, "exh3", 150),
+                     R("c17_msg", "vg", 4, 400, "rand", 150),
+                     R("c17_msg", "vg", 2, 0, "alias", 150)] + _alias_runs,
                floor=_floor(25260, 32000, 900000, 1),
                exhaustive_note="mode exh3 enumerates the reduced alphabet completely; the random part is sampled"),
     thorough=dict(runs=[R("c17_msg", "asan", 16, 0, "exh4", 1800),
